@@ -9,7 +9,9 @@ import sys
 sys.path[:0] = ["/verif"]
 from sim import gen_defs, puml_sem  # noqa: E402
 
-soak, excl, out = sys.argv[1:4]
+excl, out = sys.argv[1:3]
+soaks = sys.argv[3:]      # later files override earlier ones per (wid, sid)
+from sim import grid  # noqa: E402
 CORPUS_ALL = {
     "corpus:constraints/kill/kill_with_merge_on_parent.puml":
         "corpus kill_with_merge_on_parent (upstream strict xfail): the output "
@@ -24,13 +26,47 @@ CORPUS_ALL = {
         "corpus loop_with_2_breaks_one_leads_to_other_equiv: emitted text puts "
         "`break` outside any `repeat`",
 }
+recs = {}
+for f_ in soaks:
+    for ln in open(f_):
+        r = json.loads(ln)
+        recs[(r["wid"], r["sched"])] = r
 pts = collections.defaultdict(set)   # (prop, cls) -> {(wid, sid)}
-for ln in open(soak):
-    r = json.loads(ln)
+outs = collections.defaultdict(dict)  # wid -> outcome -> [sids]
+for (wid, sid), r in recs.items():
     for c in r["cls"]:
         prop, cls = c.split(":", 1)
-        pts[(prop, cls)].add((r["wid"], r["sched"]))
+        pts[(prop, cls)].add((wid, sid))
+    fl = grid.schedule_flags(sid)
+    if fl["subsample"] or fl["kmax_in"] != 2:
+        continue
+    st = r.get("status")
+    if st == "ok":
+        if r.get("parse") == "unparseable":
+            o = "fail:unparseable"
+        elif r.get("lang") is None:
+            continue
+        else:
+            o = "ok:%s:%s:%s" % (r["lang"], r.get("names_missing"),
+                                 r.get("names_extra"))
+    elif st in ("exc", "no-termination"):
+        o = "fail:" + st + ":" + (r.get("exc") or "").split(":")[0]
+    else:
+        continue
+    outs[wid].setdefault(o, []).append(sid)
 findings = []
+splits = sorted(w for w, o in outs.items() if len(o) > 1)
+if splits:
+    findings.append({
+        "property": "C03", "status": "known",
+        "key": {"violation_class": "outcome-split"},
+        "inputs": [[w, "*"] for w in splits],
+        "what": "learning from a fixed partial sample (#s1) of a definition "
+                "with OR forks: which language is emitted depends on the "
+                "schedule (hash order / presentation) "
+                f"({len(splits)} workloads of the soaked grid)"})
+# per (workload, class): "*" when it fails under every soaked schedule
+n_sids = collections.Counter(w for w, _ in recs)
 # corpus files failing under (nearly) every schedule
 for wid, what in CORPUS_ALL.items():
     for (prop, cls), s in sorted(pts.items()):
@@ -58,12 +94,17 @@ for (prop, cls), s in sorted(pts.items()):
     rest = sorted((w, sid) for w, sid in s if w not in CORPUS_ALL)
     if not rest:
         continue
+    per_w = collections.Counter(w for w, _ in rest)
+    everywhere = {w for w, n in per_w.items() if n == n_sids[w]}
+    inputs = [[w, "*"] for w in sorted(everywhere)] + [
+        [w, sid] for w, sid in rest if w not in everywhere]
     findings.append({
         "property": prop, "status": "known",
         "key": {"violation_class": cls},
-        "inputs": [[w, sid] for w, sid in rest],
+        "inputs": inputs,
         "what": WHAT.get((prop, cls), PARTIAL + cls)
-        + f" ({len(rest)} grid points of the soaked 3000x32 grid)"})
+        + f" ({len(rest)} grid points of the soaked grid, "
+          f"{len(everywhere)} workloads under every schedule)"})
 # representatives of the structurally excluded classes
 ex = json.load(open(excl))
 RULE = {
